@@ -527,7 +527,7 @@ def histCase : P String := do
           let K := calculateRateConstants floatTOps 3.14159265358979323846 6.02214076e23 rprocs st.conds st.P
           store := store.setIfInBounds s (some { st with K }); outs := outs ++ [showMat K]
         | none => outs := outs ++ ["nostate"]
-      | "mvs_c" | "mvs_a" => let _ ← nat; outs := outs ++ ["ok"]
+      | "mvs_c" | "mvs_a" | "mvs_x" => let _ ← nat; outs := outs ++ ["ok"]
       | "settol" =>
         let s ← nat; let atl ← flts ns; let rt ← flt
         match store.getD s none with
